@@ -234,7 +234,8 @@ def run_scenario(sc):
         for k, (lo, hi) in (sc.get("api_ranges") or {}).items():
             c.api_ranges[int(k)] = (lo, hi)
         lat = sc.get("latency", [0.001, 0.004])
-        c.latency = lambda node, api: lat[0] + (lat[1] - lat[0]) * rng.random()
+        api_lat = sc.get("api_latency") or {}       # e.g. {"OffsetFetch": 0.2}: one slow kind of request
+        c.latency = lambda node, api: api_lat[api] if api in api_lat else lat[0] + (lat[1] - lat[0]) * rng.random()
         c.group_coordinator_node = sc.get("coordinator", 0)
         rid = [0]
         for t, parts in (sc.get("preload") or {}).items():
@@ -345,6 +346,15 @@ def run_scenario(sc):
                 net.gc.loading = e["on"]
             elif op == "deny_group":
                 net.gc.deny = e["on"]
+            elif op == "leaderless":
+                # the partition has no leader for e["for"] seconds (its position is looked up later than the others')
+                lg = net.log(e["topic"], e["p"])
+                old_leader = lg.leader
+                lg.leader = -1
+
+                def back(lg=lg, old_leader=old_leader):
+                    lg.leader = old_leader
+                loop.call_later(e["for"], back)
             elif op == "add_partitions":
                 from simkit.cluster import PartitionLog
                 cur = len(net.topics[e["topic"]])
